@@ -150,6 +150,18 @@ func c15Run(v *V, scen int, keys []string, vals []string) string {
 		}
 		p.ParseArgs([]string{keys[0]})
 		return out
+	case 10: // INI output of a map whose keys all need quoting (leading blank)
+		d := &c15Ini{M: map[string]string{}, N: map[string]int{}}
+		for i, k := range keys {
+			d.M[" "+k] = vals[i]
+			d.N[" "+k] = i
+		}
+		p := NewNamedParser("prog", None)
+		p.AddGroup("Application Options", "", d)
+		p.ParseArgs(nil)
+		var b bytes.Buffer
+		NewIniParser(p).Write(&b, IniIncludeDefaults)
+		return b.String()
 	case 8: // an INI text with several unknown sections: which one the error names
 		d := &c15Sec{}
 		p := NewNamedParser("prog", None)
